@@ -864,9 +864,14 @@ impl Compactor {
         let now = chrono::Utc::now();
         #[cfg(feature = "verif_hooks")]
         let now = now + crate::verif_hooks::clock_offset();
+        // A grace period longer than chrono can represent, or one that reaches
+        // back past the representable past, means nothing is old enough yet:
+        // never fall back to a shorter grace period than the configured one.
         let grace_period = chrono::Duration::from_std(self.config.gc_grace_period)
-            .unwrap_or_else(|_| chrono::Duration::seconds(300));
-        let cutoff = now - grace_period;
+            .unwrap_or(chrono::Duration::MAX);
+        let cutoff = now
+            .checked_sub_signed(grace_period)
+            .unwrap_or(chrono::DateTime::<chrono::Utc>::MIN_UTC);
 
         // Process pending deletions that have passed grace period
         let chunks_to_delete: Vec<String> = {
@@ -971,7 +976,10 @@ impl Compactor {
 
     /// Enforce data retention policy
     async fn enforce_retention(&self) -> Result<()> {
-        let retention_nanos = self.config.retention_days as i64 * 24 * 3600 * 1_000_000_000;
+        // Saturate instead of overflowing for very long retention periods
+        // (more than ~292 years of nanoseconds do not fit an i64).
+        let retention_nanos =
+            (self.config.retention_days as i64).saturating_mul(24 * 3600 * 1_000_000_000);
         let cutoff = self.clock.retention_cutoff_nanos(retention_nanos);
 
         // Find chunks older than retention period. Candidates are all chunks
